@@ -467,6 +467,31 @@ Theorem C05_pot_transform_den_linked :
 Proof. exact pot_transform_den_linked. Qed.
 Print Assumptions C05_pot_transform_den_linked.
 
+Theorem C05_trcl_phase_den_linked :
+  forall fuel keys (s s' : state motion wfentry),
+  fresh_ok motion wfentry s -> s_cache s = [] -> NoDup keys -> all_ref_free motion wfentry s ->
+  trcl_phase motion wfentry m_empty m_eqb m_tr_surf fuel keys s = Ok s' ->
+  fresh_ok motion wfentry s' /\ s_cache s' = [] /\ surf_extends motion wfentry s s' /\
+  all_ref_free motion wfentry s' /\
+  (forall k cl, In k keys -> dget k (s_cells s) = Some cl ->
+     exists g', dget k (s_cells s') = Some (with_geom cl g') /\
+       forall p b, Den motion wfentry C04.Spec.R3 m_sense s
+                       (act_seq motion C04.Spec.R3 m_empty m_inv (c_trcl cl) p) (c_geom cl) b ->
+                   Den motion wfentry C04.Spec.R3 m_sense s' p g' b) /\
+  (forall k, ~ In k keys -> dget k (s_cells s') = dget k (s_cells s)).
+Proof. exact trcl_phase_den_linked. Qed.
+Print Assumptions C05_trcl_phase_den_linked.
+
+Theorem C05_cell_transform_den_linked :
+  forall fuel k t cache (s : state motion wfentry) k' s',
+  Inv motion wfentry C04.Spec.R3 m_empty m_inv m_sense s ->
+  cell_transform motion wfentry m_empty m_eqb m_tr_surf fuel k t cache s = Ok (k', s') ->
+  Inv motion wfentry C04.Spec.R3 m_empty m_inv m_sense s' /\ extends motion wfentry s s' /\
+  forall p b, Den motion wfentry C04.Spec.R3 m_sense s (act motion C04.Spec.R3 m_empty m_inv t p) (TRef k) b ->
+              Den motion wfentry C04.Spec.R3 m_sense s' p (TRef k') b.
+Proof. exact cell_transform_den_linked. Qed.
+Print Assumptions C05_cell_transform_den_linked.
+
 (* how a surface leaf of a C05 tree reads in C04's vocabulary: a positive literal is C04's
    entry_pos exactly; C04's strict entry_neg implies the negative literal (they differ only at
    points lying on a part of the entry) *)
